@@ -561,7 +561,10 @@ def tile_unit(name):
         return _iso_vd(int(dtype), ident)
     if name == 'regi':
         u = bytearray(64)
-        struct.pack_into('<4sII', u, 0, b'regi', 0, 2047)
+        # few entries: the shipped inspector re-walks the whole region table
+        # after every chunk for as long as it has not found the metadata
+        # entry, which makes a full table cost milliseconds per chunk
+        struct.pack_into('<4sII', u, 0, b'regi', 0, 8)
         return bytes(u)
     if name == 'metadata':
         u = bytearray(64)
